@@ -7,7 +7,7 @@
                     transitionTasks / configureTasks  (commands go to the tasks handed in by the environment)
    Definitions only (executable, total); lemmas are in proofs/Ownership_proofs.v.
    Shared by C04 and C06; the environment level (creation, teardown, API wrappers) is Teardown.v. *)
-From Verif Require Import Common Gen_UtsWrites Gen_Claimable.
+From Verif Require Import Common Gen_UtsWrites Gen_Claimable Gen_CleanupAtomic.
 Open Scope N_scope.
 
 (* task state machine states as reported by the executors *)
@@ -57,7 +57,9 @@ Definition set_dead (t : task) : task :=
   mkTask (t_id t) (t_owner t) false (if is_locked t then TS_ERROR else t_state t) (t_idok t) (t_kill t) (t_ch t).
 (* HandleExecutorFailed / HandleAgentFailed: id blanked, state ERROR, status INACTIVE, parent kept *)
 Definition set_failed (t : task) : task :=
-  mkTask (t_id t) (t_owner t) false TS_ERROR false (t_kill t) (t_ch t).
+  mkTask (t_id t) (t_owner t) false (t_state t) false (t_kill t) (t_ch t).
+(* (the task manager's copy of the state becomes ERROR; the state of a task that is not ACTIVE is not observed,
+   and when the executor reports in again the device is still in the state it was in) *)
 
 Definition task_eqb (a b : task) : bool :=
   tid_eqb (t_id a) (t_id b) && option_eqb N.eqb (t_owner a) (t_owner b) &&
@@ -135,6 +137,26 @@ Fixpoint first_claimable (ch : N) (r : roster) : option tid :=
   | [] => None
   | t :: r' => if claimable t && N.eqb (t_ch t) ch then Some (t_id t) else first_claimable ch r'
   end.
+
+(* ---- a Cleanup that acts on a list of unlocked tasks [ids] computed EARLIER (it waited in between).
+   Manager.Cleanup computes its list and kills with no lock acquisition or other blocking point in between
+   (gen/Gen_CleanupAtomic.v, read from the source on every run), so the list is never stale: acting on it is
+   acting on tasks that are unlocked now.  Without that fact the listed tasks are killed and dropped whether
+   or not they are locked by now. *)
+Fixpoint force_kill (ids : list tid) (r : roster) : roster * list tid :=
+  match r with
+  | [] => ([], [])
+  | t :: r' => let '(r'', k) := force_kill ids r' in
+               if mem_tid (t_id t) ids then (r'', t_id t :: k) else (t :: r'', k)
+  end.
+Definition stale_cleanup (ids : list tid) (r : roster) : roster * list tid :=
+  if cleanup_no_block then kill_tasks ids r else force_kill ids r.
+
+(* ---- a TASK_RUNNING update from the executor of a task whose executor had been reported failed: the ids
+   are set again (updateTaskStatus), the task is ACTIVE and - if it still has its parent - locked again *)
+Definition relock_task (id : tid) (r : roster) : roster :=
+  map (fun t => if tid_eqb (t_id t) id && negb (t_idok t)
+                then mkTask (t_id t) (t_owner t) true (t_state t) true (t_kill t) (t_ch t) else t) r.
 
 (* ---- the master starts refusing the KILL calls for the tasks [ids] *)
 Definition refuse_tasks (ids : list tid) (r : roster) : roster :=
